@@ -5,7 +5,7 @@ import re, json, os
 DIRECTIVES = {
     'unit', 'serves', 'module', 'features', 'prelude', 'specs', 'flags', 'assumptions', 'item',
     'pre_attrs', 'requires', 'ensures', 'decreases', 'keep_fields', 'derives', 'loop', 'closure',
-    'params', 'cret', 'crequires', 'censures', 'adapter', 'bind', 'insert', 'wrap', 'carries', 'nosentinel', 'note', 'carve',
+    'params', 'cret', 'crequires', 'censures', 'adapter', 'bind', 'insert', 'wrap', 'carries', 'adapt', 'nosentinel', 'note', 'carve',
 }
 
 _dir_re = re.compile(r'^\s*@([a-z_]+)\b(.*)$')
@@ -41,7 +41,14 @@ class Unit:
 
 def parse(path):
     u = Unit(path)
-    raw = open(path).read().split('\n')
+    raw = []
+    for ln in open(path).read().split('\n'):
+        m = re.match(r'^@include\s+(\S+)', ln)
+        if m:
+            inc = os.path.join(os.path.dirname(os.path.dirname(os.path.abspath(path))), m.group(1))
+            raw += open(inc).read().split('\n')
+        else:
+            raw.append(ln)
     # tokenise into (directive, argline, blocklines)
     toks = []
     cur = None
@@ -99,6 +106,9 @@ def parse(path):
             item[d] = text
         elif d == 'nosentinel':
             item['nosentinel'] = (arg + ' ' + text).strip() or 'yes'
+        elif d == 'adapt':
+            a = arg.split()
+            item.setdefault('adapts', []).append({'chain': a[0], 'wrapper': a[1], 'recv': a[2] if len(a) > 2 else ''})
         elif d == 'carries':
             item['carries'] = arg.split()
         elif d == 'keep_fields':
@@ -173,7 +183,7 @@ def contract_text(item, sentinel=False):
 
 
 def is_fn_item(item):
-    return any(item.get(k) for k in ('requires', 'ensures', 'decreases', 'ret', 'loops', 'inserts', 'closures', 'wraps')) and not item.get('keep_fields')
+    return any(item.get(k) for k in ('requires', 'ensures', 'decreases', 'ret', 'loops', 'inserts', 'closures', 'wraps', 'adapts')) and not item.get('keep_fields')
 
 
 def job(u, sentinel=False):
@@ -218,7 +228,16 @@ def job(u, sentinel=False):
             j['inserts'] = it['inserts']
         if it.get('wraps'):
             j['wraps'] = it['wraps']
+        if it.get('adapts'):
+            j['adapts'] = it['adapts']
         items.append(j)
     repo = os.environ.get('VERIF_REPO', '/repo')
-    mods = {k: (p if os.path.isabs(p) else os.path.join(repo, p)) for k, p in u.modules.items()}
+    import glob
+    mods = {}
+    for k, p in u.modules.items():
+        if p.startswith('registry:'):
+            g = sorted(glob.glob(os.path.expanduser('~/.cargo/registry/src/*/' + p[len('registry:'):])))
+            mods[k] = g[0] if g else p
+        else:
+            mods[k] = p if os.path.isabs(p) else os.path.join(repo, p)
     return {'modules': mods, 'features': u.features, 'items': items}
